@@ -279,6 +279,7 @@ package carddav
 //@   loop 1 invariant I1d: multiget.Prop == nil ? dataReq.AllProp == false && len(dataReq.Props) == 0
 //@   |       : (decodedOk(multiget.Prop, "addressDataReq") ==> dataReqRel(dataReq, decoded(multiget.Prop, "addressDataReq")))
 //@   loop 1 invariant I2: forall j :: 0 <= j && j < #i ==> answersHref(resps[j], h.Backend, ctx, multiget.Hrefs[j].Path, &dataReq)
+//@   loop 1 invariant I2d: forall j :: 0 <= j && j < #i ==> allocated(gaoErr(h.Backend, ctx, multiget.Hrefs[j].Path, &dataReq))
 //@ spec answersHref(r internal.Response, be Backend, ctx context.Context, path string, req *AddressDataRequest) bool = len(r.Hrefs) == 1
 //@   | && (gaoErr(be, ctx, path, req) != nil
 //@   |     ? (r.Hrefs[0].Path == path && r.Status != nil && r.Status.Code == errStatus(gaoErr(be, ctx, path, req)))
@@ -349,30 +350,35 @@ package carddav
 //@   allocates
 //@   ensures F1: err == nil ==> fresh(resp) && oneHref(resp, cardPrincipal(b.Backend, ctx))
 //@   ensures F2: err != nil ==> pfErr(err)
+//@   ensures F4: err == nil ==> formOK(propfind)
 //@   ensures F3: mutations == old(mutations)
 //@ func carddav.(*backend).propFindUserPrincipal(b, ctx, propfind) (resp, err)
 //@   requires R1: b != nil && b.Backend != nil && propfind != nil
 //@   allocates
 //@   ensures F1: err == nil ==> fresh(resp) && oneHref(resp, cardPrincipal(b.Backend, ctx))
 //@   ensures F2: err != nil ==> pfErr(err)
+//@   ensures F4: err == nil ==> formOK(propfind)
 //@   ensures F3: mutations == old(mutations)
 //@ func carddav.(*backend).propFindHomeSet(b, ctx, propfind) (resp, err)
 //@   requires R1: b != nil && b.Backend != nil && propfind != nil
 //@   allocates
 //@   ensures F1: err == nil ==> fresh(resp) && oneHref(resp, cardHomeSet(b.Backend, ctx))
 //@   ensures F2: err != nil ==> pfErr(err)
+//@   ensures F4: err == nil ==> formOK(propfind)
 //@   ensures F3: mutations == old(mutations)
 //@ func carddav.(*backend).propFindAddressBook(b, ctx, propfind, ab) (resp, err)
 //@   requires R1: b != nil && b.Backend != nil && propfind != nil && ab != nil
 //@   allocates
 //@   ensures F1: err == nil ==> fresh(resp) && oneHref(resp, ab.Path)
 //@   ensures F2: err != nil ==> pfErr(err)
+//@   ensures F4: err == nil ==> formOK(propfind)
 //@   ensures F3: mutations == old(mutations)
 //@ func carddav.(*backend).propFindAddressObject(b, ctx, propfind, ao) (resp, err)
 //@   requires R1: b != nil && b.Backend != nil && propfind != nil && ao != nil
 //@   allocates
 //@   ensures F1: err == nil ==> fresh(resp) && oneHref(resp, ao.Path)
 //@   ensures F2: err != nil ==> pfErr(err)
+//@   ensures F4: err == nil ==> formOK(propfind)
 //@   ensures F3: mutations == old(mutations)
 //@ func carddav.(*backend).propFindAllAddressObjects(b, ctx, propfind, ab) (resps, err)
 //@   requires R1: b != nil && b.Backend != nil && propfind != nil && ab != nil
@@ -380,7 +386,9 @@ package carddav
 //@   -- one response per object the backend lists for the address book, in order, under the backend's path
 //@   ensures A1: err == nil ==> laoPath == ab.Path && len(resps) == len(laoRes) && (forall j :: 0 <= j && j < len(resps) ==> len(resps[j].Hrefs) == 1 && resps[j].Hrefs[0].Path == laoRes[j].Path)
 //@   ensures A2: err != nil ==> pfErr(err)
+//@   ensures A4: err == nil && !formOK(propfind) ==> len(resps) == 0
 //@   ensures A3: mutations == old(mutations)
+//@   loop 1 invariant I0: #i > 0 ==> formOK(propfind)
 //@   loop 1 invariant I1: len(resps) == #i && (cap(resps) == 0 || fresh(resps)) && laoRes == aos && laoPath == ab.Path && mutations == old(mutations)
 //@   loop 1 invariant I2: forall j :: 0 <= j && j < #i ==> len(resps[j].Hrefs) == 1 && resps[j].Hrefs[0].Path == aos[j].Path
 //@ func carddav.(*backend).propFindAllAddressBooks(b, ctx, propfind, recurse) (resps, err)
@@ -390,7 +398,9 @@ package carddav
 //@   ensures C1: err == nil && !recurse ==> len(resps) == len(cardBooks(b.Backend, ctx)) && (forall j :: 0 <= j && j < len(resps) ==> len(resps[j].Hrefs) == 1 && resps[j].Hrefs[0].Path == cardBooks(b.Backend, ctx)[j].Path)
 //@   ensures C1r: err == nil && recurse ==> len(resps) >= len(cardBooks(b.Backend, ctx))
 //@   ensures C2: err != nil ==> pfErr(err)
+//@   ensures C4: err == nil && !formOK(propfind) ==> len(resps) == 0
 //@   ensures C3: mutations == old(mutations)
+//@   loop 1 invariant I0: len(resps) > 0 ==> formOK(propfind)
 //@   loop 1 invariant I1: (cap(resps) == 0 || fresh(resps)) && mutations == old(mutations) && abs == cardBooks(b.Backend, ctx) && (recurse ? len(resps) >= #i : len(resps) == #i)
 //@   loop 1 invariant I2: !recurse ==> (forall j :: 0 <= j && j < #i ==> len(resps[j].Hrefs) == 1 && resps[j].Hrefs[0].Path == abs[j].Path)
 //@ spec principalOfA(b *backend, r *http.Request) string = cardPrincipal(b.Backend, reqContext(r))
@@ -401,6 +411,8 @@ package carddav
 //@   ensures P0: err == nil ==> ms != nil
 //@   ensures P1: err != nil ==> ms == nil && pfErr(err)
 //@   ensures P2: mutations == old(mutations)
+//@   -- C11: a propfind naming none of the three forms yields no response (every response construction refuses it with 400)
+//@   ensures FORM: err == nil && !formOK(propfind) ==> len(ms.Responses) == 0
 //@   -- C12: a principal or home-set path other than the current user's exposes nothing
 //@   ensures G1: err == nil && lvlA(b, r) == 1 && r.URL.Path != principalOfA(b, r) ==> len(ms.Responses) == 0
 //@   ensures G2: err == nil && lvlA(b, r) == 2 && r.URL.Path != homeSetOfA(b, r) ==> len(ms.Responses) == 0
@@ -494,6 +506,10 @@ package carddav
 //@   ensures PF1: routedA(r) && r.Method == "PROPFIND" && wstatus(w) == 207 && servedErr == nil && lvlHA(h, r) == 1 && r.URL.Path != cardPrincipal(h.Backend, reqContext(r)) ==> servedMS != nil && len(servedMS.Responses) == 0
 //@   ensures PF2: routedA(r) && r.Method == "PROPFIND" && wstatus(w) == 207 && servedErr == nil && lvlHA(h, r) == 2 && r.URL.Path != cardHomeSet(h.Backend, reqContext(r)) ==> servedMS != nil && len(servedMS.Responses) == 0
 //@   ensures PF3: routedA(r) && r.Method == "PROPFIND" && lvlHA(h, r) == 3 ==> gabCalls <= old(gabCalls) + 1 && (gabCalls == old(gabCalls) + 1 ==> gabPath == r.URL.Path)
+//@   -- C11: request form and Depth header (handlePropfind)
+//@   ensures PF4: routedA(r) && r.Method == "PROPFIND" && hdr(r, "Depth") != "" && hdr(r, "Depth") != "0" && hdr(r, "Depth") != "1" && hdr(r, "Depth") != "infinity" ==> wstatus(w) == 400 && mutations == old(mutations)
+//@   ensures PF5: routedA(r) && r.Method == "PROPFIND" && wstatus(w) == 207 && servedErr == nil && xmlReq(r) && !formOKv(decoded(r, "internal.PropFind")) ==> servedMS != nil && len(servedMS.Responses) == 0
+//@   ensures PF6: r.Method == "PROPFIND" && wstatus(w) == 207 && servedErr == nil ==> servedMS != nil
 //@   -- C13: a 5xx answer stems from the backend or the environment (or is the 501 of an unimplemented method), and a
 //@   -- request that changed something was either carried out or failed inside the backend
 //@   ensures S5: wstatus(w) >= 500 ==> (servedErr != nil && (beErr(servedErr) || fromEnv(servedErr) || httpCode(servedErr) == 501 || decErr(servedErr))) || (!routedA(r) && cardPrincipalErr(h.Backend, reqContext(r)) != nil)
